@@ -59,6 +59,15 @@ def facts(pos, negs):
         ineqs.append((dict(m), c0))                       # len(text) - total >= 0
         if closed:
             ineqs.append(({x: -v for x, v in m.items()}, -c0))
+        # a text ending in CR LF whose tokens are fully split ends with the token "\n" right after the separator CR at len-2
+        crlf = ('call', 'ends_with', (text, ('bytes', b'\r\n')))
+        if crlf in pos and CR in seps[1] and 10 not in seps[1] and (k + 1) in absent and 1 <= k < lim - 1:
+            lf_tok = T.eq(('bytes', b'\n'), ('call', 'tok', (src, I(k))))
+            if lf_tok in negs:
+                return 'unsat', None
+            d0, dm = T.to_lin(T.sub(ln(k), I(1)))
+            ineqs.append((dict(dm), d0))
+            ineqs.append(({x: -v for x, v in dm.items()}, -d0))
         # separator positions vs. the first CR
         if CR not in seps[1]:
             continue
